@@ -23,6 +23,7 @@ type Mutated struct {
 var DefectClasses = []string{
 	"substitute", "transpose", "count-delete", "count-insert", "count-any", "foreign-word", "case",
 	"affix", "junk-token", "separator", "checksum-only", "last-word", "none", "lead-zero-wrongsum",
+	"empty-token", "drop-word-keep-separator",
 }
 
 func join(l ref.Lang, idx []int, sep string) string {
@@ -149,6 +150,22 @@ func Defect() *rapid.Generator[Mutated] {
 			}
 			idx2 := append(append([]int(nil), idx[:n-1]...), j)
 			m.Text, m.Desc = join(l, idx2, " "), fmt.Sprintf("last word replaced by index %d", j)
+		case "empty-token":
+			// a valid sentence in which word p has index 0 loses that word but keeps both separators:
+			// a validator that lets an empty token stand for index 0 accepts it
+			p := rapid.IntRange(0, n-2).Draw(t, "pos")
+			idx2 := append([]int(nil), idx[:n-1]...)
+			idx2[p] = 0
+			sol := ref.SolveLast(idx2)
+			idx2 = append(idx2, sol[rapid.IntRange(0, len(sol)-1).Draw(t, "last")])
+			ws := ref.Words(l, idx2)
+			ws[p] = ""
+			sep := rapid.SampledFrom([]string{" ", "\u3000"}).Draw(t, "sep")
+			m.Text, m.Desc = strings.Join(ws, sep), fmt.Sprintf("word %d (index 0) removed, separators kept", p)
+		case "drop-word-keep-separator":
+			p := rapid.IntRange(0, n-1).Draw(t, "pos")
+			words[p] = ""
+			m.Text, m.Desc = strings.Join(words, " "), fmt.Sprintf("word %d removed, separators kept", p)
 		case "lead-zero-wrongsum":
 			// sentences whose entropy starts with zero bytes and whose checksum is the one of
 			// the entropy with its leading zero bytes dropped (what a big-integer
